@@ -477,7 +477,7 @@ def run_async(cfg, prefix):
                 return
             state["main_has"] = True
             c02.apply_ops(w, [["add", "m", "b"]])
-            sch.point(("main", "holding"))
+            sch.point(("main", "holding"), yielding=True)
             if cfg["main_end"] == "commit":
                 w.commit(merge=False)
                 state["main_committed"] = True
